@@ -40,8 +40,11 @@ first_missed = {
  'C04-e': 'controlled wrappers were exercised with 7 control-value specs on gates without a global phase; controlled.global_phase (zero-qubit phases and shifted gates under mixed control values, unitary and decomposition) added afterwards',
  'C03-e': 'C03 compares cirq.unitary(gate) with the documented matrix and does not run the in-place kernels; the change is caught by the C04 check (controlled.FSim / apply_unitary), see also_detected_by in meta.json',
  'C04-f': 'CircuitOperation is not in the C04 gate menu; the change is caught by the C12 check (unitary.single.*), see also_detected_by in meta.json',
+ 'C09-e': 'trajectories were only unravelled for qubits; trajectory.qudit_reset* / dm_simulate.qudit_reset (ResetChannel(d), d = 2..4, every populated level symbolic) added afterwards',
+ 'C09-f': 'Kraus / superoperator / Choi descriptions were only compared for single operations; descriptions.moment_* / circuit_expanded (moments with operations stored in non-sorted qubit order) added afterwards',
  'C19-b': 'the concrete KAK fall-back menu only had gates with interaction (x,0,0); matrix-only gates with generic coefficients added afterwards',
 }
+cross_only = {'C03-e', 'C04-f'}  # caught by a neighbouring property's check from the start, never by their own
 still = {
  'C08-a': 'trace_distance_bound is outside the C08 claim (eigenvalue angles / arccos; the ControlledOperation path goes through LAPACK)',
  'C04-c': 'MatrixGate on three qubits decomposes through three_qubit_matrix_to_operations (cosine-sine decomposition, LAPACK): no symbolic matrix can pass, outside the C04 claim',
@@ -59,9 +62,14 @@ for d in sorted(os.listdir(V)):
         m['detected_by'] = det
     out = det['outcome'] if isinstance(det, dict) else str(det)
     first = (det.get('first_report', '') if isinstance(det, dict) else '')[:110]
+    # a change seeded for one property may be caught by the check of a neighbouring property (tools/crossrun.py)
+    cross = [(k, v) for k, v in (m.get('also_detected_by') or {}).items() if str(v.get('outcome', '')).startswith('CAUGHT')]
+    if not out.startswith('CAUGHT') and cross:
+        out = f'CAUGHT by the {cross[0][0]} check (its own property check: {out})'
+        first = cross[0][1].get('first_report', '')[:110]
     note = ''
     if d in first_missed:
-        note = 'MISSED by the first version of the check: ' + first_missed[d] + '; now caught'
+        note = 'MISSED by the first version of the check: ' + first_missed[d] + ('; now caught' if d not in cross_only else '')
     if d in still:
         note = 'still missed: ' + still[d]
     if note:
@@ -72,7 +80,7 @@ caught = sum(1 for r in rows if r[3].startswith('CAUGHT'))
 with open(f'{V}/RESULTS.md', 'w') as f:
     f.write("# Seeded changes: outcome of the property's quick check on each change\n\n")
     f.write('Each change was produced by an independent sub-agent that saw only the property text, was confirmed in a scratch worktree (demo passes clean / fails patched, tests of the touched package pass), and was run with `tools/seedmatrix.py` (private worktree + `VERIF_REPO`). The outcome column refers to the final checks; the history column records what the FIRST version of the check did where that differs.\n\n')
-    f.write(f'Caught by the final checks: {caught} of {len(rows)}. Caught by the first versions (before any strengthening prompted by a miss): {caught - len(first_missed)} of {len(rows)}. Independence caveat for C06/C10/C12/C14: see DESIGN.md 9.5.\n\n')
+    f.write(f'Caught by the final checks: {caught} of {len(rows)}. Caught by the first versions (before any strengthening prompted by a miss): {caught - len(first_missed) + len(cross_only)} of {len(rows)}. Independence caveat for C06/C10/C12/C14: see DESIGN.md 9.5.\n\n')
     f.write('| seed | property | files | outcome | first report | history |\n|---|---|---|---|---|---|\n')
     for r in rows:
         f.write('| ' + ' | '.join(r) + ' |\n')
